@@ -452,6 +452,9 @@ func (l *Local) Allocate(ctx context.Context, cni *daemon.CNI, request ResourceR
 		respCh := make(chan *AllocResp)
 		// assign ip to pod , as we are ready
 		// this must be protected by lock
+		// an address the pod holds already (repeated request) stays with the pod if this request is cancelled
+		keepV4 := ipv4 != nil && cni.PodID != "" && ipv4.podID == cni.PodID
+		keepV6 := ipv6 != nil && cni.PodID != "" && ipv6.podID == cni.PodID
 		if ipv4 != nil {
 			ipv4.Allocate(cni.PodID)
 		}
@@ -463,7 +466,7 @@ func (l *Local) Allocate(ctx context.Context, cni *daemon.CNI, request ResourceR
 			l.cond.L.Lock()
 			defer l.cond.L.Unlock()
 
-			l.commit(ctx, respCh, ipv4, ipv6, cni.PodID)
+			l.commitKeep(ctx, respCh, ipv4, ipv6, cni.PodID, keepV4, keepV6)
 		}()
 		return respCh, nil
 	}
@@ -635,7 +638,9 @@ func (l *Local) allocWorker(ctx context.Context, cni *daemon.CNI, request *Local
 			}
 		}
 
-		l.commit(ctx, respCh, ipv4, ipv6, cni.PodID)
+		keepV4 := ipv4 != nil && cni.PodID != "" && ipv4.podID == cni.PodID
+		keepV6 := ipv6 != nil && cni.PodID != "" && ipv6.podID == cni.PodID
+		l.commitKeep(ctx, respCh, ipv4, ipv6, cni.PodID, keepV4, keepV6)
 
 		return
 	}
@@ -1049,6 +1054,12 @@ func (l *Local) Status() Status {
 // commit send the allocated ip result to respCh
 // if ctx canceled, the respCh will be closed
 func (l *Local) commit(ctx context.Context, respCh chan *AllocResp, ipv4, ipv6 *IP, podID string) {
+	l.commitKeep(ctx, respCh, ipv4, ipv6, podID, false, false)
+}
+
+// commitKeep is commit for a pod which may hold the address already (keepV4/keepV6): a cancelled request must not
+// take away what the pod held before
+func (l *Local) commitKeep(ctx context.Context, respCh chan *AllocResp, ipv4, ipv6 *IP, podID string, keepV4, keepV6 bool) {
 	var ip types.IPSet2
 	if ipv4 != nil {
 		ip.IPv4 = ipv4.ip
@@ -1071,10 +1082,10 @@ func (l *Local) commit(ctx context.Context, respCh chan *AllocResp, ipv4, ipv6 *
 	})
 	select {
 	case <-ctx.Done():
-		if ipv4 != nil {
+		if ipv4 != nil && !keepV4 {
 			ipv4.Release(podID)
 		}
-		if ipv6 != nil {
+		if ipv6 != nil && !keepV6 {
 			ipv6.Release(podID)
 		}
 
